@@ -428,8 +428,9 @@ def finish(ctx, aud, level='proof', partial=(), assumptions=(), trusted=(), sear
     ev = {'property_id': pid, 'tier': ctx.tier, 'seed': ctx.seed, 'level': level, 'coverage': cov,
           'assumptions': list(assumptions), 'wall_s': round(time.time() - ctx.t0, 2),
           'violations': 1 if exit_code else 0}
-    os.makedirs(EVIDENCE_DIR, exist_ok=True)
-    with open(os.path.join(EVIDENCE_DIR, pid + '.json'), 'w') as fh:
+    evdir = os.path.join(VERIF, '.scratch', 'evidence') if os.environ.get('VERIF_REPLAY') else EVIDENCE_DIR
+    os.makedirs(evdir, exist_ok=True)
+    with open(os.path.join(evdir, pid + '.json'), 'w') as fh:
         json.dump(ev, fh, indent=1, default=_jsonable)
     for l in lines:
         print(l)
